@@ -3,8 +3,9 @@
    synchronisation point of server-packet.go; [reachable false] quantifies over
    every interleaving of any number of Serve calls, datagram goroutines, handler
    completions and Shutdown calls (repaired ordering: Serve counts itself active
-   while it still holds the mutex).  The data-race clause is NOT proved here
-   (partial): see DESIGN.md; the harness runs under the race detector. *)
+   while it still holds the mutex).  The data-race clause is proved only as
+   the lockset discipline of the code as written (C07_code_lockset); the Go memory model is trusted and the harness
+   runs under the race detector (partial, see DESIGN.md). *)
 From Radius Require Import Base.Bytes Base.Res Model.Shutdown Proofs.ShutdownInv Proofs.Shutdown Proofs.ShutdownShape.
 Open Scope nat_scope.
 
@@ -87,6 +88,20 @@ Example C07_example :
   closes (run false init (es ++ [EStep 1 AHandler_return; EStep 1 ARun; EStep 2 AWake_nil])) = 1.
 Proof. vm_compute. repeat split. Qed.
 
+(* ... and these are all the paths: every list of decisions long enough to reach the end of any path through the
+   skeleton yields one of the model's traces *)
+Theorem C07_code_paths_complete : code_paths_complete.
+Proof. exact code_paths_complete_holds. Qed.
+
+(* the data-race clause, as far as it is a matter of the code's own discipline: on every path through Serve, the
+   goroutine of a datagram and Shutdown as written, s.listeners (and initLocked, the only writer of the server's
+   other fields) is touched only with s.mu held, the in-flight table only with requestsLock held, no lock is taken
+   twice or released when not held, and every path ends with both released; activeAdd/activeDone touch only the
+   atomic counter and the channel.  What remains trusted: the Go memory model, sync and sync/atomic, and that the
+   reads of s.ctx in the goroutines are ordered after initLocked by the go statement. *)
+Theorem C07_code_lockset : code_lockset.
+Proof. exact code_lockset_holds. Qed.
+
 Print Assumptions C07_invariant.
 Print Assumptions C07_no_panic.
 Print Assumptions C07_shutdown_nil_means_drained.
@@ -99,3 +114,5 @@ Print Assumptions C07_no_internal_deadlock_partial.
 Print Assumptions C07_waiting_shutdown_waits_for_a_holder.
 Print Assumptions C07_legacy_ordering_refuted.
 Print Assumptions C07_code_order.
+Print Assumptions C07_code_paths_complete.
+Print Assumptions C07_code_lockset.
